@@ -44,9 +44,11 @@ fn next_half(
 
 	// It's not a mistake. We really need a bit-to-bit comparison of float values here
 	// Also it is not a good idea to use `match value.partial_cmp(slice[half]): it is slower.
+	// Values which are not bit-equal are ordered by `total_cmp`, so `-0.0` and `+0.0`
+	// (numerically equal, different bits) always have a definite place in the sorted slice.
 	if value.to_bits() == get(slice, half).to_bits() {
 		padding + half
-	} else if &value > get(slice, half) {
+	} else if value.total_cmp(get(slice, half)) == Ordering::Greater {
 		f(value, get(slice, (half + 1)..), padding + half + 1)
 	} else {
 		f(value, get(slice, ..half), padding)
@@ -256,10 +258,12 @@ impl<'de> Deserialize<'de> for SMM {
 		let mut sort_error = false;
 
 		slice.sort_unstable_by(|a, b| {
-			a.partial_cmp(b).unwrap_or_else(|| {
-				sort_error = true;
-				Ordering::Equal
-			})
+			a.partial_cmp(b)
+				.map(|order| order.then_with(|| a.total_cmp(b)))
+				.unwrap_or_else(|| {
+					sort_error = true;
+					Ordering::Equal
+				})
 		});
 
 		if sort_error {
